@@ -208,6 +208,8 @@ const (
 	KindRSA2048 = 3
 	KindRSA3072 = 4
 	KindP521    = 5
+	KindRSA4096 = 6
+	KindRSA1024 = 7
 )
 
 func coordLen(c elliptic.Curve) int { return (c.Params().BitSize + 7) / 8 }
@@ -298,6 +300,20 @@ func ParseKeyID(der []byte) (crypto.PublicKey, error) {
 			return nil, errors.New("model key: bad RSA-3072 length")
 		}
 		return &rsa.PublicKey{N: new(big.Int).SetBytes(der[1:]), E: 65537}, nil
+	case KindRSA1024:
+		if len(der) != 129 {
+			return nil, errors.New("model key: bad RSA-1024 length")
+		}
+		m := append([]byte{}, der[1:]...)
+		m[0] |= 0x80
+		return &rsa.PublicKey{N: new(big.Int).SetBytes(m), E: 65537}, nil
+	case KindRSA4096:
+		if len(der) != 513 {
+			return nil, errors.New("model key: bad RSA-4096 length")
+		}
+		m := append([]byte{}, der[1:]...)
+		m[0] |= 0x80
+		return &rsa.PublicKey{N: new(big.Int).SetBytes(m), E: 65537}, nil
 	}
 	return nil, errors.New("model key: unknown kind")
 }
